@@ -716,6 +716,17 @@ impl World {
                 }
             }
         }
+        // a connection that was closed — by the environment (`disconnect`) or by the node itself (it answered a bad
+        // response with a disconnect) — is over: challenges issued on it are void for whatever connection reuses the
+        // peer index later ("the fresh challenge this node issued on that very connection")
+        if let SOp::Disconnect(n, c) = op {
+            self.sym.issued_on.remove(&(*n, *c));
+        }
+        for a in &acts {
+            if let IoAct::Disconnect(c) = a {
+                self.sym.issued_on.remove(&(node_id, *c));
+            }
+        }
         StepResult { line: op.line(hint), answer, new_nonces, class }
     }
 }
